@@ -1007,11 +1007,11 @@ class Interp:
             b = self.clip(hi, n, None)
             ln = b - a if self.ctx.known(b - a >= 0) else z3.If(b - a > 0, b - a, 0)
             return VStr(z3.SubString(base.term, a, z3.simplify(ln)), base.np)
-        if isinstance(base, VTuple) and step == 1:
+        if isinstance(base, VTuple) and step is not None and step != 0:
             a = concrete_int(lo) if lo is not None and not isinstance(lo, VNone) else None
             b = concrete_int(hi) if hi is not None and not isinstance(hi, VNone) else None
             if (lo is None or isinstance(lo, VNone) or a is not None) and (hi is None or isinstance(hi, VNone) or b is not None):
-                return VTuple(base.items[a:b])
+                return VTuple(base.items[a:b:step])
         if isinstance(base, VList) and isinstance(base.content, ConcreteSeq):
             a = concrete_int(lo) if lo is not None and not isinstance(lo, VNone) else None
             b = concrete_int(hi) if hi is not None and not isinstance(hi, VNone) else None
